@@ -289,6 +289,21 @@ func (r *Report) finish(evdir string, writeEvidence bool) int {
 			}
 			names[n] = true
 		}
+		// the functions of the open findings are instrumented too: an input that
+		// trips a listed finding is then recognised where the finding arises, and
+		// whatever it breaks further down on the same input is its consequence
+		for i := range known.Findings {
+			n := known.Findings[i].Obligation
+			if j := strings.Index(n, "#"); j > 0 {
+				n = n[:j]
+			}
+			if j := strings.Index(n, "["); j > 0 && strings.HasSuffix(n, "]") && !strings.Contains(n, "[\"") {
+				n = n[:j]
+			}
+			if r.p.ByName[n] != nil {
+				names[n] = true
+			}
+		}
 		hits, ran, err := racSweep(r.p, names)
 		sweep["inputs"] = ran
 		if err != nil {
@@ -296,13 +311,25 @@ func (r *Report) finish(evdir string, writeEvidence bool) int {
 			emitViolation("runtime-sweep", "the run-time checked build did not run: "+firstLineOf(err.Error()), nil)
 		}
 		sweep["failures"] = len(hits)
+		reported := map[string]bool{}
 		for _, h := range hits {
-			if f := strings.Fields(h.Line); len(f) >= 2 && f[0] == "RAC-FAIL" {
-				if k := isKnown(f[1]); k != nil {
-					// the run-time face of a listed finding
-					fmt.Printf("KNOWN-FINDING: property=%s %s [%s, run-time check on input %q]\n", r.Prop, k.What, f[1], h.Input)
-					continue
+			var k *KnownFinding
+			var kname string
+			for _, ln := range strings.Split(h.Line+"\n"+h.All, "\n") {
+				if f := strings.Fields(ln); len(f) >= 2 && f[0] == "RAC-FAIL" {
+					if kk := isKnown(f[1]); kk != nil {
+						k, kname = kk, f[1]
+						break
+					}
 				}
+			}
+			if k != nil {
+				// the run-time face of a listed finding (and its consequences on this input)
+				if key := kname + "\x00" + h.Input; !reported[key] {
+					reported[key] = true
+					fmt.Printf("KNOWN-FINDING: property=%s %s [%s, run-time check on input %q]\n", r.Prop, k.What, kname, h.Input)
+				}
+				continue
 			}
 			violations++
 			os.MkdirAll(replayDir, 0o755)
